@@ -278,9 +278,28 @@ impl From<_VerificationMethod> for VerificationMethod {
       id,
       controller,
       type_,
-      data,
+      mut data,
       mut properties,
     } = value;
+    // The flattened `MethodData` only recognises the well-known verification material when it is the method's only
+    // remaining member. Together with additional properties the custom fallback picks an arbitrary member instead
+    // (e.g. a `purpose` property) and the real key material ends up among the properties: give it precedence.
+    if let MethodData::Custom(CustomMethodData { name, data: custom_data }) = &data {
+      for key in ["publicKeyJwk", "publicKeyMultibase", "publicKeyBase58"] {
+        let material: Option<MethodData> = properties.get(key).and_then(|value| {
+          let mut tagged = serde_json::Map::new();
+          tagged.insert(key.to_owned(), value.clone());
+          serde_json::from_value::<MethodData>(serde_json::Value::Object(tagged)).ok()
+        });
+        if let Some(material @ (MethodData::PublicKeyJwk(_) | MethodData::PublicKeyMultibase(_) | MethodData::PublicKeyBase58(_))) =
+          material
+        {
+          properties.insert(name.clone(), custom_data.clone());
+          data = material;
+          break;
+        }
+      }
+    }
     let key = match &data {
       MethodData::PublicKeyBase58(_) => "publicKeyBase58",
       MethodData::PublicKeyJwk(_) => "publicKeyJwk",
